@@ -135,10 +135,29 @@ def run_cfg(ctx, p, cfg):
         flag = ("field", ("param", 1), ro["append_field"])
         opn = g.call1(rolling.OPEN)
         tr = [c for c in calls_in(opn.arg(0)) if c[1] == "std::fs::OpenOptions::truncate"]
-        trunc_expr = tr[0][2][1] if tr else ("const", "bool", False)
-        atoms = [deep_strip(a) for a in q.bool_atoms(trunc_expr)]
-        r.require(all(a == flag for a in atoms), "truncate-depends-only-on-append-flag", fn=g, detail="truncate argument %s" % show(trunc_expr, 4))
-        trunc = {fv: q.eval_bool(_ds_bool(trunc_expr), {flag: fv}) for fv in (False, True)}
+        trunc_expr = _ds_bool(tr[0][2][1]) if tr else ("const", "bool", False)
+        atoms = q.bool_atoms(trunc_expr)
+        r.require(all(a == flag or a[0] == "param" for a in atoms), "truncate-decided-by-flag-and-open-context", fn=g,
+                  detail="truncate argument %s (atoms: the appender's append flag / the opener's own parameters)" % show(trunc_expr, 4))
+
+        def trunc_values(block):
+            """possible values of the truncate argument on the paths reaching `block`"""
+            cons = []
+            for sb, si, al in g.conditions(block):
+                labs = {si.label(v) for v, _ in al}
+                if labs <= {True, False}:
+                    cons.append((_ds_bool(si.discr), labs))
+            for d, labs in cons:
+                if d == trunc_expr:
+                    return set(labs)
+                if d[0] == "un" and d[1] == "Not" and d[2] == trunc_expr:
+                    return {not x for x in labs}
+            res = set()
+            for vals in itertools.product([False, True], repeat=len(atoms)):
+                env = dict(zip(atoms, vals))
+                if all((env[d] in labs) for d, labs in cons if d in env):
+                    res |= q.eval_bool(trunc_expr, env)
+            return res
         # definitions of the seed
         seeds = []
         if "const" in op_len:
@@ -147,35 +166,24 @@ def run_cfg(ctx, p, cfg):
             pl = op_len.get("copy") or op_len.get("move")
             seeds.extend(g.root_defs(pl["l"]))
         r.require(len(seeds) >= 1, "seed-defs", fn=g, detail="definitions of the seed: %s" % [show(e, 4) for b, e in seeds])
-        for b, e in seeds:
-            allowed = {False, True}
-            for sb, si, al in g.conditions(b):
-                if deep_strip(si.discr) == flag:
-                    allowed &= {si.label(v) for v, _ in al}
+        covered_false = False
+        for n, (b, e) in enumerate(seeds):
+            tv = trunc_values(b)
             es = deep_strip(e)
             from_meta = es[0] == "call" and es[1] == "std::fs::Metadata::len" and any(x[0] == "call" and x[1] == "std::fs::File::metadata" and any(
                 y[0] == "call" and y[1] == rolling.OPEN for y in walk(x)) for x in walk(es))
             is_zero = es == ("const", "int", 0)
-            for fv in sorted(allowed):
-                if is_zero:
-                    r.require(trunc[fv] == {True}, "zero-seed-only-when-truncating:flag=%s" % fv, fn=g,
-                              detail="seed 0 on an edge with append flag=%s where truncate=%s" % (fv, trunc[fv]))
-                elif from_meta:
-                    r.ok("metadata-seed:flag=%s" % fv, fn=g, detail="seed from metadata().len() of the opened file with flag=%s" % fv)
-                else:
-                    r.fail("seed-unrecognised:flag=%s" % fv, fn=g, detail="seed %s is neither 0 nor metadata().len() of the opened file" % show(e, 5))
-        # coverage: for each flag value with truncate false there is a metadata seed
-        for fv in (False, True):
-            if trunc[fv] != {True}:
-                has = False
-                for b, e in seeds:
-                    allowed = {False, True}
-                    for sb, si, al in g.conditions(b):
-                        if deep_strip(si.discr) == flag:
-                            allowed &= {si.label(v) for v, _ in al}
-                    if fv in allowed and deep_strip(e)[0] == "call" and deep_strip(e)[1] == "std::fs::Metadata::len":
-                        has = True
-                r.require(has, "existing-bytes-counted:flag=%s" % fv, fn=g, detail="with append flag=%s (truncate %s) the seed is the file's size" % (fv, trunc[fv]))
+            if is_zero:
+                r.require(tv == {True}, "zero-seed-only-when-truncating", fn=g,
+                          detail="seed 0 is used only on edges where the truncate argument is true (truncate values there: %s)" % sorted(tv),
+                          fail_detail="the size counter is seeded with 0 on an edge where the file is not truncated (truncate values: %s): pre-existing bytes are not counted" % sorted(tv))
+            elif from_meta:
+                r.ok("metadata-seed#%d" % n, fn=g, detail="seed from metadata().len() of the opened file (truncate values on that edge: %s)" % sorted(tv))
+                if False in tv:
+                    covered_false = True
+            else:
+                r.fail("seed-unrecognised#%d" % n, fn=g, detail="seed %s is neither 0 nor metadata().len() of the opened file" % show(e, 5))
+        r.require(covered_false, "existing-bytes-counted", fn=g, detail="whenever the file is not truncated the seed is the file's size")
         md = g.calls("std::fs::File::metadata")
         for c in md:
             r.require(common.result_is_checked(g, c), "metadata-error-propagated", fn=g, site=c.at, detail="metadata() failure is propagated")
